@@ -90,6 +90,7 @@ func (m *CPU) Run(app risc.Application) (int, error) {
 	cycle := 0
 	for {
 		cycle++
+		m.ctx.VerifTick(cycle)
 		log.Info(m.ctx, "Cycle %d", cycle)
 		m.decodeBus.Connect(cycle)
 		m.controlBus.Connect(cycle)
@@ -147,6 +148,7 @@ func (m *CPU) Run(app risc.Application) (int, error) {
 			cycle++
 			m.writeBus.Connect(cycle)
 			for !m.areWriteUnitsEmpty() || !m.writeBus.IsEmpty() {
+				m.ctx.VerifTick(cycle)
 				for _, wu := range m.writeUnits {
 					_ = wu.Cycle(wuReq{-1})
 				}
@@ -166,6 +168,7 @@ func (m *CPU) Run(app risc.Application) (int, error) {
 
 			for {
 				isEmpty := true
+				m.ctx.VerifTick(cycle)
 				cycle++
 
 				for _, cc := range m.cacheControllers {
@@ -191,6 +194,7 @@ func (m *CPU) Run(app risc.Application) (int, error) {
 				m.writeBus.Connect(cycle + 1)
 				for _, wu := range m.writeUnits {
 					for !wu.isEmpty() || !m.writeBus.IsEmpty() {
+						m.ctx.VerifTick(cycle)
 						_ = wu.Cycle(wuReq{sequenceID})
 					}
 				}
@@ -213,6 +217,7 @@ func (m *CPU) Run(app risc.Application) (int, error) {
 
 	for {
 		cycle++
+		m.ctx.VerifTick(cycle)
 		empty := true
 		for _, cc := range m.cacheControllers {
 			if !cc.snoop.IsStart() {
